@@ -105,7 +105,7 @@ def _r1_r2(model, res):
                     res.violation('R2', 'function:%s:out-of-range-value' % name, m.where(f),
                                   '%s (%s): when a position is beyond the array the function returns %r instead of an error' % (name, label, o.value),
                                   case={'case': label}, func=f.name)
-    res.floor('position-derived subscripts examined', n_ev, 8)
+    res.soft_floor('position-derived subscripts examined', n_ev, 8)
 
 
 def _match_sorted(model, res, E):
